@@ -1333,6 +1333,155 @@ class EssOneChain(Contract):
                 ('the chains are not modified', z3.BoolVal(s.chains.cell.elt is s.cell_elt))]
 
 
+# ---------------------------------------------------------------- eff_sample_size for M >= 2 chains (concrete M, symbolic length and values)
+LSC = z3.Function('LSc', I, I, I, R)          # LSc(c, t, k) = sum_{i<k} (x_{c,i} - mean_c)(x_{c,i+t} - mean_c): lag-t products of chain c's deviations
+
+
+class EssMultiChain(EssOneChain):
+    """eff_sample_size for M >= 2 chains of symbolic length n and symbolic values (M concrete: one contract instance per M):
+    the multi-chain formula of BDA3 11.5 / the Stan manual, written from the property over definitional finite sums -
+        mean_c, s2_c = mean and unbiased variance of chain c,  B = n * (unbiased variance of the M chain means),  W = mean_c s2_c,
+        var+ = ((n-1) W + B) / n,   acov_c(t) = sum_{i<n-t} (x_{c,i} - mean_c)(x_{c,i+t} - mean_c) / (n - t),
+        rho_t = 1 - (W - mean_c acov_c(t)) / var+,   ESS = M n / (1 + 2 sum_{t=1}^{T-1} rho_t),  T = the first lag with rho_T < 0 (or n).
+    Same loop invariant as the single-chain contract and the SAME single assumed library contract (_FFT, applied per row)."""
+
+    def __init__(self, M):
+        assert isinstance(M, int) and 2 <= M <= 4
+        self.M = M
+        self.shape = '2d'
+        self.label = '%d-chains' % M
+
+    def setup(self, vc):
+        M = self.M
+        N = z3.Int('N')
+        vc.fin_bounds.append(N)
+        chains = SArr(Cell(lambda c, t: X(c, t), (ZInt(z3.IntVal(M)), ZInt(N)), 'real'))
+        n, nr, Mr = N, z3.ToReal(N), z3.RealVal(M)
+        sq = lambda v: v * v
+        tot = lambda f: z3.Sum([f(z3.IntVal(c)) for c in range(M)])          # an explicit finite sum over the M chains
+        mu = lambda c: SM(c, n) / nr
+        s2 = lambda c: SV(c, n) / (nr - 1)
+        G = tot(mu) / Mr
+        Bv = nr * (tot(lambda c: sq(mu(c) - G)) / (Mr - 1))
+        Wv = tot(s2) / Mr
+        vp = ((nr - 1) * Wv + Bv) / nr
+        dev = lambda c, i: X(c, i) - mu(c)
+        acov = lambda c, t: LSC(c, t, n - t) / z3.ToReal(n - t)
+        macov = lambda t: tot(lambda c: acov(c, t)) / Mr
+        rho = lambda t: 1 - (Wv - macov(t)) / vp
+        s = ns(N=N, n=n, nr=nr, Mr=Mr, M=M, chains=chains, cell_elt=chains.cell.elt, mu=mu, s2=s2, G=G, Bv=Bv, Wv=Wv, vp=vp, dev=dev, acov=acov,
+               macov=macov, rho=rho, sq=sq, tot=tot)
+        m = z3.IntVal(M)
+        s.R = dict(N=N >= 2, VP=vp > 0, RS1=RS(1) == 0, NN1=NN(1),
+                   D_SM=Univ(0, m, lambda r: prefix_def(lambda k: SM(r, k), n, lambda t: X(r, t)), 'r'),
+                   D_SV=Univ(0, m, lambda r: prefix_def(lambda k: SV(r, k), n, lambda t: sq(X(r, t) - mu(r))), 'r'),
+                   D_LS=[Univ(1, n, lambda t, c=c: prefix_def(lambda k: LSC(c, t, k), n - t, lambda k: dev(c, k) * dev(c, k + t)), 't') for c in range(M)],
+                   D_RS=Univ(1, n, lambda t: RS(t + 1) == RS(t) + rho(t), 't'),
+                   D_NN=Univ(1, n, lambda t: NN(t + 1) == z3.And(NN(t), rho(t) >= 0), 't'))
+        return s, (chains,), {}
+
+    def requires(self, s):
+        vc = cur()
+        if vc.fin is not None:
+            vc.assume(s.N == 5, *[X(c, t) == GelmanRubin.fin_x(c, t) for c in range(self.M) for t in range(5)])
+        R_ = s.R
+        return [('at least two draws', R_['N']), R_['D_SM'].q, R_['D_SV'].q] + [u.q for u in R_['D_LS']] + [R_['RS1'], R_['D_RS'].q, R_['NN1'], R_['D_NN'].q,
+                ('the pooled variance is positive (the draws are not all one value)', R_['VP'])]
+
+    def hooks(self, s):
+        if cur().fin is not None:
+            return {}
+        n, R_, M = s.n, s.R, self.M
+        m = z3.IntVal(M)
+        G0 = [R_['N']]
+        H = s.H = {}
+        rows = [z3.IntVal(c) for c in range(M)]
+
+        def base_step(vc, base, r0, t0, hyps):
+            fcut(vc, 'element (r, t) of the array given to mean / var is x[r, t]', base.at(r0, t0) == X(r0, t0), hyps)
+        rs = lambda *a, **k: row_sums_hook(H, G0, n, m, lambda r, t: X(r, t), base_step, *a, **k)
+
+        def after_var(vc, rec):
+            rs(2, 'squared deviations', SV, R_['D_SV'], lambda r, t: s.sq(X(r, t) - s.mu(r)), 1, mean_of=1)(vc, rec)
+            s.G_ = {k: [H[k].inst(vc, c) for c in rows] for k in (0, 1, 2)}      # the three row facts at each of the M rows, as ground facts
+
+        def chain_sum(k, name, summand, insts):
+            """the k-th np.sum of the run, a sum over the M chains (concrete length): the code's sum = the explicit finite sum of the
+            definition's summands (unrolled recursion of the code's prefix sum; summands equal entry by entry)"""
+            def h(vc, rec):
+                a, ps, ax = rec['arr'], rec['ps'], rec.get('axioms')
+                if a.ndim != 1 or not ax:
+                    raise OutOfSubset('expected a 1-d sum')
+                inner = Univ(0, a.shape[0], lambda i: ps(i + 1) == ps(i) + a.at(i), 'i')
+                if not z3.eq(inner.q, ax[1]):
+                    raise OutOfSubset('proof script: np.sum axiom has an unexpected form')
+                shp = fcut(vc, '%s: one entry per chain' % name, a.shape[0] == m, G0)
+                steps = [inner.inst(vc, c) for c in rows]
+                eqs = [fcut(vc, '%s: summand of chain %d of the code = summand of the definition' % (name, c), a.at(rows[c]) == summand(rows[c]), G0 + insts(vc))
+                       for c in range(M)]
+                H[k] = fcut(vc, '%s: code sum = the finite sum of the definition' % name, T(rec['res']) == s.tot(summand), [ax[0], shp] + steps + eqs)
+            return h
+        row_facts = lambda k: (lambda vc: list(s.G_[k]))
+
+        def autocov(vc, rec):
+            src = rec['src']
+            shp = fcut(vc, 'the array transformed is M x n', z3.And(src.shape[0] == m, src.shape[1] == n), G0)
+            s.F_src = []
+            for c in range(M):
+                def steps(i, rng, c=c):
+                    fcut(vc, 'deviation at a generic index (chain %d)' % c, src.at(c, i) == s.dev(rows[c], i), G0 + rng + [s.G_[0][c], shp])
+                s.F_src.append(forall_intro(vc, 'the FFT is applied to the deviations of chain %d from its mean' % c, 0, n,
+                                            lambda i, c=c: src.at(c, i) == s.dev(rows[c], i), steps))
+
+        def lag_read(vc, rec):
+            """the bridge at the lag of this iteration: autocov[c, lag] = LSc(c, lag, n - lag) for every chain c, then the mean over the chains"""
+            ac = vc.libcalls['np.fft.autocov'][0]
+            src, AC, LK = ac['src'], ac['AC'], ac['LK']
+            lag = T(s.rt.loopstate[0]['head'].lag)
+            rng = z3.And(1 <= lag, lag < n)
+            vc.cut('the lag read is in [1, n)', rng)
+            bridge = []
+            for c in range(M):
+                U, cz = ac['U'][c], rows[c]
+                iu = U.inst(vc, lag)
+                d2a = fcut(vc, 'FFT autocovariance of chain %d at this lag = its lag sum (library contract, instance)' % c, AC(c, lag) == LK(c, lag, n - lag), [iu, rng])
+                a_ = lambda k, c=c: src.at(c, k) * src.at(c, k + lag)
+                b_ = lambda k, cz=cz: s.dev(cz, k) * s.dev(cz, k + lag)
+                d2b = fcut(vc, 'recursion of the lag sum of chain %d (library contract, instance)' % c, prefix_def(lambda k: LK(c, lag, k), n - lag, a_), [iu, rng])
+                d1 = fcut(vc, 'defining recursion of the definitional lag sum of chain %d at this lag' % c,
+                          prefix_def(lambda k: LSC(cz, lag, k), n - lag, b_), [R_['D_LS'][c].inst(vc, lag), rng])
+
+                def steps(k, rng_k, c=c, a_=a_, b_=b_):
+                    ia, ib = s.F_src[c].inst(vc, k), s.F_src[c].inst(vc, k + lag)
+                    fcut(vc, 'product of deviations at a generic index (chain %d)' % c, a_(k) == b_(k), rng_k + [ia, ib, rng])
+                F_pt = forall_intro(vc, 'summand of the lag sum = summand of the definition (chain %d)' % c, 0, n - lag, lambda k: a_(k) == b_(k), steps)
+                L = use(stmt_sum_ext(n - lag, a_, b_, lambda k: LK(c, lag, k), lambda k: LSC(cz, lag, k)))
+                vc.assume(L)            # LemmaSumExt
+                e1 = fcut(vc, 'lag sum of the code = definitional lag sum (chain %d)' % c, LK(c, lag, n - lag) == LSC(cz, lag, n - lag), [L, d1, d2b, F_pt.q, rng])
+                bridge.append(fcut(vc, 'autocov[%d, lag] = sum of lagged products of the deviations of chain %d' % (c, c), AC(c, lag) == LSC(cz, lag, n - lag), [e1, d2a]))
+            chain_sum('acov', 'mean autocovariance over the chains', lambda c: s.acov(c, lag), lambda vc_: bridge + [rng])(vc, rec)
+        return {k_: tolerant(h_) for k_, h_ in {
+            ('np.sum', 0): rs(0, 'chain means', SM, R_['D_SM'], lambda r, t: X(r, t), 0),
+            ('np.sum', 1): rs(1, 'chain means inside var', SM, R_['D_SM'], lambda r, t: X(r, t), 1),
+            ('np.sum', 2): after_var,
+            ('np.sum', 3): chain_sum(3, 'mean of the chain means', s.mu, row_facts(0)),
+            ('np.sum', 4): chain_sum(4, 'between-chain sum of squares', lambda c: s.sq(s.mu(c) - s.G), lambda vc: list(s.G_[0]) + [H[3]]),
+            ('np.sum', 5): chain_sum(5, 'within-chain variance', s.s2, row_facts(2)),
+            ('np.fft.autocov', 0): autocov, ('np.sum', 6): lag_read}.items()}
+
+    def witness(self, vc, model, ob):
+        return dict(fn='ess', values=[[float(GelmanRubin.fin_x(c, t)) for t in range(5)] for c in range(self.M)], one_d=False)
+
+    def ensures(self, s, result):
+        if not isinstance(result, SNum) or 0 not in s.rt.loopstate or 'head' not in s.rt.loopstate[0]:
+            return [('ESS is a number computed by the lag loop (got %r)' % (result,), z3.BoolVal(False))]
+        Tl = T(s.rt.loopstate[0]['head'].lag)
+        return [('ESS = M n / (1 + 2 sum_{t=1}^{T-1} rho_t), rho_t = 1 - (W - mean_c acov_c(t))/var+, var+ = ((n-1) W + B)/n, B = n var(chain means), W = mean chain variance',
+                 T(result) == s.Mr * s.nr / (1 + 2 * RS(Tl))),
+                ('T is the first lag whose rho_T is negative, or n', z3.And(1 <= Tl, Tl <= s.n, NN(Tl), z3.Or(Tl == s.n, s.rho(Tl) < 0))),
+                ('the chains are not modified', z3.BoolVal(s.chains.cell.elt is s.cell_elt))]
+
+
 class MonotoneCum(LemmaMonotoneCum):
     """prefix sums of non-negative terms are monotone"""
     prop = 'C16'
@@ -1938,7 +2087,7 @@ class RhatCas(CasContract):
 
 CONTRACTS = [SampleInit('plain'), SampleInit('weighted'), SamplesArray(), NSamples(), Dim(), Discrepancies(True), Discrepancies(False),
              SampleMeans(True), SampleMeans(False), SampleCIs(True), SampleCIs(False), SampleQuantiles(True), SampleQuantiles(False), SumExt(),
-             BolfiInit(), BolfireInit(), GelmanRubin(), GelmanRubin('1/100000', 'finitised-at-scale-1e-5'), RhatCas(), EssOneChain('1d'), EssOneChain('2d'), MonotoneCum(), LemmaAffineSum(), LemmaAffineSS(), LemmaRhatAffine(), LemmaRhatPermutation(),
+             BolfiInit(), BolfireInit(), GelmanRubin(), GelmanRubin('1/100000', 'finitised-at-scale-1e-5'), RhatCas(), EssOneChain('1d'), EssOneChain('2d'), EssMultiChain(2), EssMultiChain(3), MonotoneCum(), LemmaAffineSum(), LemmaAffineSS(), LemmaRhatAffine(), LemmaRhatPermutation(),
              NumpyToPython(), SampleObjectToDict('given'), SampleObjectToDict('default')]
 
 TRUSTED_BASE = ['pyvc engine: proxies, loop cutting, numpy spec table (np.sum / np.mean / np.average = mathematical finite sum by prefix recursion; slices, '
